@@ -337,12 +337,16 @@ func (w *srelayWorld) byzantineRelay() {
 	// unmodified replays / re-wraps fall under the onTun oracle (identical bytes, once, right destination)
 }
 
-// tunnelDigest renders the receive-side state of one tunnel.
+// tunnelDigest renders the receive-side state of one tunnel: recorded remote, liveness flag, replay window,
+// roaming memory. The list of relay candidates is deliberately not part of it: answering a packet it cannot
+// authenticate (recv_error), a node walks its relay candidates on the SEND path and prunes those whose relay
+// record is not established at that moment (sendNoMetrics -> DeleteRelay) — housekeeping of the sender that any
+// own transmission performs as well, not state the modified packet wrote (thorough-tier false alarm, corrected).
 func tunnelDigest(h *HostInfo) string {
 	if h.ConnectionState == nil {
 		return "nil"
 	}
-	return fmt.Sprintf("remote=%v in=%v win=%s roam=%v relay[%s]", h.GetRemote(), h.in.Load(), bitsDigest(h.ConnectionState.window), h.lastRoamRemote, relayStateDigest(&h.relayState))
+	return fmt.Sprintf("remote=%v in=%v win=%s roam=%v", h.GetRemote(), h.in.Load(), bitsDigest(h.ConnectionState.window), h.lastRoamRemote)
 }
 
 // ---------------------------------------------------------------------------
@@ -399,7 +403,19 @@ func (w *srelayWorld) recordControl(to *simNode, d *simDatagram) {
 			w.reqSeen[to.idx][relayPair{s, target}] = true
 		}
 		w.stats["probe.control_requests_seen"]++
-		_ = from
+		// A request whose target is the receiving node itself ("from wants to reach you through me") is handled on
+		// the record the receiver keeps for `from` on the sender's tunnel; when that record is the forwarding record
+		// of a pair from<->sender that `from` asked for, the sender's own message moves it to Established. The sender
+		// is the rightful other end of that pair, so this counts as its consent (the statement's forwarding clauses
+		// are about third parties; strict message-type transitions are out of scope, see DESIGN.md 7.7).
+		if slices.Contains(to.f.myVpnAddrs, target) {
+			if w.respSeen[to.idx] == nil {
+				w.respSeen[to.idx] = map[relayPair]bool{}
+			}
+			for _, s := range sender {
+				w.respSeen[to.idx][relayPair{from, s}] = true
+			}
+		}
 	case NebulaControl_CreateRelayResponse:
 		// Y (authenticated sender) confirms the relay for from
 		if w.respSeen[to.idx] == nil {
@@ -483,12 +499,48 @@ func (w *srelayWorld) checkForward(ob *observed, d *simDatagram) {
 // every relay index points at a live tunnel that owns it.
 func (w *srelayWorld) checkRelayRecords(nd *simNode, ev string) bool {
 	hm := nd.f.hostMap
+	// attribution (C15): nothing in this world ever sends a peer's authenticated packet from another host's
+	// address directly (the byzantine relay re-sends through the relay path only), so whatever underlay address
+	// a tunnel records for its peer must be one of that peer's own addresses, never the relay's
+	for _, h := range sortedHostInfos(hm) {
+		r := h.GetRemote()
+		if !r.IsValid() || h.ConnectionState == nil || h.ConnectionState.peerCert == nil {
+			continue
+		}
+		name := h.ConnectionState.peerCert.Certificate.Name()
+		for _, p := range w.nodes {
+			if p.spec.name != name {
+				continue
+			}
+			if r != p.conn.addr && !slices.Contains(p.spec.altUDP, r) {
+				w.fail("C15", "remote-is-not-the-peer", "node %d after %s: the tunnel to %v (%s) records underlay address %v for its peer, whose addresses are %v %v", nd.idx, ev, h.vpnAddrs, name, r, p.conn.addr, p.spec.altUDP)
+				return false
+			}
+		}
+	}
 	for _, h := range sortedHostInfos(hm) {
 		cur := map[uint32]Relay{}
 		for _, r := range h.relayState.CopyAllRelayFor() {
 			cur[r.LocalIndex] = *r
 		}
 		prev := w.recs[h]
+		for _, idx := range sortedU32(cur) {
+			r := cur[idx]
+			if _, had := prev[idx]; !had && r.Type == ForwardingType {
+				// a forwarding record joins this tunnel's peer with r.PeerAddr: one of the two must have asked this
+				// node for it with an authenticated CreateRelayRequest (no third party may set it up for them)
+				asked := false
+				for _, s := range h.vpnAddrs {
+					if w.reqSeen[nd.idx][relayPair{s, r.PeerAddr}] || w.reqSeen[nd.idx][relayPair{r.PeerAddr, s}] {
+						asked = true
+					}
+				}
+				if !asked {
+					w.fail("C39", "relay-record-not-requested", "node %d after %s: forwarding relay record %d joins tunnel %v with %v, but neither of them sent this node a CreateRelayRequest for the other", nd.idx, ev, idx, h.vpnAddrs, r.PeerAddr)
+					return false
+				}
+			}
+		}
 		for idx, r := range cur {
 			if p, ok := prev[idx]; ok {
 				if p.Type != r.Type || p.PeerAddr != r.PeerAddr || p.LocalIndex != r.LocalIndex {
